@@ -1,12 +1,48 @@
 #!/usr/bin/env python3
-"""Print the markdown table of seeded changes (seeded/*/meta.json) for DESIGN.md section 11.4."""
+"""Print the markdown table of seeded changes (seeded/*/meta.json) for DESIGN.md section 11.4.
+
+Columns: seed | change (first words of the sub-agent's summary) | first verdict of `./check <PID>` on the patched copy |
+verdict after strengthening (the "recheck" record written by tools/seedrecheck.py), with the obligations that fire."""
 import glob
 import json
 import os
 import re
 
 ROOT = os.path.dirname(os.path.dirname(os.path.abspath(__file__)))
+
+
+def obligations(results):
+    obls = []
+    for pid, r in (results or {}).items():
+        if r.get("exit") != 1:
+            continue
+        for l in r.get("lines", []):
+            mm = re.match(r"\s*obligation (\S+?):", l)
+            if mm:
+                obls.append(re.sub(r"#p\d+$", "", mm.group(1)))
+    return list(dict.fromkeys(obls))
+
+
+def verdict(results):
+    if not results:
+        return "-"
+    codes = {p: r.get("exit") for p, r in results.items()}
+    if any(c == 1 for c in codes.values()):
+        ob = obligations(results)
+        by = [p for p, c in codes.items() if c == 1]
+        s = "caught by " + "/".join(by)
+        if ob:
+            s += ": " + ", ".join(f"`{o}`" for o in ob[:2]) + (f" (+{len(ob) - 2})" if len(ob) > 2 else "")
+        return s
+    if any(c == 2 for c in codes.values()):
+        return "undecided (exit 2: " + "/".join(p for p, c in codes.items() if c == 2) + ")"
+    if any(c not in (0, 1, 2) for c in codes.values()):
+        return "checker error"
+    return "MISSED (exit 0)"
+
+
 rows = []
+n = caught_first = caught_now = 0
 for d in sorted(glob.glob(os.path.join(ROOT, "seeded", "*"))):
     mp = os.path.join(d, "meta.json")
     if not os.path.exists(mp):
@@ -14,24 +50,23 @@ for d in sorted(glob.glob(os.path.join(ROOT, "seeded", "*"))):
     m = json.load(open(mp))
     name = os.path.basename(d)
     summ = (m.get("summary") or "").replace("|", "/").replace("\n", " ")
-    summ = summ[:150] + ("…" if len(summ) > 150 else "")
-    obls = []
-    for pid, r in (m.get("check_results") or {}).items():
-        for l in r.get("lines", []):
-            mm = re.match(r"\s*obligation (\S+?):", l)
-            if mm:
-                obls.append(mm.group(1))
-    obls = list(dict.fromkeys(obls))
-    if m.get("detected"):
-        verdict = "caught: " + ", ".join(f"`{o}`" for o in obls[:3]) + (f" (+{len(obls) - 3})" if len(obls) > 3 else "")
-    elif m.get("confirmed_by_main_session") is False:
-        verdict = "not confirmed (" + "; ".join(m.get("what_i_ran", [])[-3:])[:120] + ")"
+    summ = summ[:140] + ("…" if len(summ) > 140 else "")
+    first = verdict(m.get("check_results"))
+    rc = m.get("recheck")
+    if rc is None:
+        now = "(same)"
+        detected_now = bool(m.get("detected"))
+    elif rc.get("patch_exit") != 0:
+        now = "patch no longer applies"
+        detected_now = bool(m.get("detected"))
     else:
-        verdict = "MISSED"
-    hist = m.get("history")
-    if hist:
-        verdict += " — " + hist
-    rows.append(f"| {name} | {summ} | {verdict} |")
-print("| seed | change | verdict of `./check` on the patched copy |")
-print("|---|---|---|")
+        now = verdict(rc.get("checks")) + ("" if rc.get("still_breaks") else " [demo no longer fails on the current tree]")
+        detected_now = bool(rc.get("detected"))
+    n += 1
+    caught_first += bool(m.get("detected"))
+    caught_now += detected_now
+    rows.append(f"| {name} | {summ} | {first} | {now} |")
+print(f"{n} seeded changes; {caught_first} reported as a violation by the first run of the property's own check, {caught_now} after strengthening / by the check of the property that owns the function.\n")
+print("| seed | change | first run of `./check <PID>` | after strengthening (recheck) |")
+print("|---|---|---|---|")
 print("\n".join(rows))
